@@ -13,12 +13,12 @@ import sys
 import time
 
 VERIF = os.path.dirname(os.path.dirname(os.path.abspath(__file__)))
-MAP = {
-    "m01": ["C05"], "m02": ["C04"], "m03": ["C03"], "m04": ["C04", "C08"], "m05": ["C08", "C04"],
+MAP = {   # the owning check first; a second one only where it is cheap and informative
+    "m01": ["C05"], "m02": ["C04"], "m03": ["C03"], "m04": ["C04"], "m05": ["C08"],
     "m06": ["C09", "C11"], "m07": ["C09"], "m08": ["C10"], "m09": ["C10"], "m10": ["C12"], "m11": ["C13"],
     "m12": ["C14"], "m13": ["C15"], "m14": ["C15", "C06"], "m15": ["C16"], "m16": ["C11"], "m17": ["C02"],
-    "m18": ["C02"], "m19": ["C07"], "m20": ["C06"], "m21": ["C01", "C08"], "m22": ["C01"], "m23": ["C17"],
-    "m24": ["C17"], "m25": ["C18"], "m26": ["C01", "C05"],
+    "m18": ["C02"], "m19": ["C07"], "m20": ["C06"], "m21": ["C01"], "m22": ["C01"], "m23": ["C17"],
+    "m24": ["C17"], "m25": ["C18"], "m26": ["C01"],
 }
 PRESERVING = {"m08"}
 
